@@ -32,6 +32,17 @@ pub enum SOp {
     AppendGa(u64),
     /// write(offset, GenericAddress::io_port_address::<u32>(v)): a 12-byte packed value through the generic write
     WriteGa(usize, u16),
+    /// write_u32(4, current length + k): the Length field set by the caller to what a later append will make it
+    WriteLenPlus(u32),
+    /// write_bytes(0, header of another finished table whose Length is current length + k): a copied header
+    CopyHeader(u32),
+}
+fn other_header(len: u32) -> Vec<u8> {
+    let mut m = Model::new(36);
+    m.0[0..4].copy_from_slice(b"OTHR");
+    m.0[4..8].copy_from_slice(&len.to_le_bytes());
+    m.fix();
+    m.0
 }
 fn ga_mmio(v: u64) -> [u8; 12] {
     let mut b = [0u8; 12];
@@ -69,6 +80,14 @@ fn apply(t: &mut Sdt, op: &SOp) {
         SOp::UpdateChecksum => t.update_checksum(),
         SOp::AppendGa(v) => t.append(acpi_tables::sdt::GenericAddress::mmio_address::<u16>(*v)),
         SOp::WriteGa(o, v) => t.write(*o, acpi_tables::sdt::GenericAddress::io_port_address::<u32>(*v)),
+        SOp::WriteLenPlus(k) => {
+            let n = t.len() as u32 + *k;
+            t.write_u32(4, n)
+        }
+        SOp::CopyHeader(k) => {
+            let h = other_header(t.len() as u32 + *k);
+            t.write_bytes(0, &h)
+        }
     }
 }
 
@@ -138,6 +157,14 @@ impl Model {
             SOp::UpdateChecksum => self.fix(),
             SOp::AppendGa(v) => self.append(&ga_mmio(*v)),
             SOp::WriteGa(o, v) => return self.write(*o, &ga_io(*v)),
+            SOp::WriteLenPlus(k) => {
+                let n = self.0.len() as u32 + *k;
+                return self.write(4, &n.to_le_bytes());
+            }
+            SOp::CopyHeader(k) => {
+                let h = other_header(self.0.len() as u32 + *k);
+                return self.write(0, &h);
+            }
         }
         true
     }
@@ -148,7 +175,8 @@ fn kind(op: &SOp) -> &'static str {
         SOp::AppendU8(_) | SOp::AppendU16(_) | SOp::AppendU32(_) | SOp::AppendU64(_) => "append",
         SOp::AppendSlice(_) => "append_slice",
         SOp::WriteBytes(..) => "write_bytes",
-        SOp::WriteU8(..) | SOp::WriteU16(..) | SOp::WriteU32(..) | SOp::WriteU64(..) | SOp::WriteGa(..) => "write",
+        SOp::WriteU8(..) | SOp::WriteU16(..) | SOp::WriteU32(..) | SOp::WriteU64(..) | SOp::WriteGa(..) | SOp::WriteLenPlus(_) => "write",
+        SOp::CopyHeader(_) => "write_bytes",
         SOp::AppendGa(_) => "append",
         SOp::UpdateChecksum => "update_checksum",
         _ => "sink",
@@ -200,6 +228,15 @@ fn alphabet(len: usize, full: bool) -> Vec<SOp> {
         SOp::SinkVec(vec![1, 2, 3]),
         SOp::UpdateChecksum,
         SOp::AppendGa(0x1122_3344_5566_7788),
+        // the Length field set by hand to the length a following append reaches (1, 3, 4, 9, 12 bytes ahead), or left equal
+        SOp::WriteLenPlus(0),
+        SOp::WriteLenPlus(1),
+        SOp::WriteLenPlus(3),
+        SOp::WriteLenPlus(4),
+        SOp::WriteLenPlus(9),
+        SOp::WriteLenPlus(12),
+        SOp::CopyHeader(9),
+        SOp::CopyHeader(0),
     ];
     let offs: Vec<usize> = if full {
         let mut o: Vec<usize> = (0..=len + 1).collect();
